@@ -613,6 +613,11 @@ func poolsByNamespace(pools map[string]*Pool) map[string][]string {
 			poolsForNamespace[namespace] = append(poolsForNamespace[namespace], pool.Name)
 		}
 	}
+	// pools is a map: sort the lists, so that the result does not depend on
+	// the iteration order.
+	for _, names := range poolsForNamespace {
+		sort.Strings(names)
+	}
 	return poolsForNamespace
 }
 
